@@ -806,6 +806,42 @@ def check_gnmidiff(prop, tier, seed, work):
     return cov, tot["violations"]
 
 
+MALFORMED_CFG = """SPECIFICATION Spec
+CONSTANTS
+  Mode = "%s"
+INVARIANT GridComplete
+CONSTRAINT Emit
+"""
+
+
+def check_c20(tier, seed, work):
+    """C20: Malformed.tla enumerates the grid of malformed input shapes; every case is run under
+    recover() on Unmarshal, Get/Set/DeleteNode, GetOrCreateNode, UnmarshalSetRequest,
+    UnmarshalNotifications, the gnmidiff functions and StringToPath; the only verdict is a panic."""
+    cfgs = ["us", "cs"] if tier == "quick" else ["us", "uw", "cs", "cw", "co"]
+    h, bindir = vf.prepare(work, cfgs)
+    outs = []
+    states = trans = 0
+    for m in ("json", "path", "req", "seq"):
+        mc = vf.run_tlc(work, "Malformed", MALFORMED_CFG % m, tag="mf" + m, workers=8)
+        states += mc["distinct"]; trans += mc["states"]
+        outs.append(mc["out"])
+    r = run_replay(bindir, h, "malformed", ["-in", ",".join(outs), "-prop", "C20", "-pkgs", ",".join(cfgs), "-strlen", "5" if tier == "quick" else "6"], work, "malformed")
+    if r["evaluated"] == 0:
+        raise Infra("malformed replay evaluated nothing")
+    cov = dict(states=states, transitions=trans, traces_validated_against_impl=r["evaluated"], exhaustive=False, grid_cases=r["distinct"],
+               samples=[dict(node="list", json="[1]"), dict(op="SetNode-json", path="list-bad-key-type", value="leaflist-nil-element"),
+                        dict(api="DiffSetRequest-noschema", request="leaflist-twice")],
+               counters=r.get("counters"), configurations=cfgs,
+               explanation="the full grid: 19 schema node kinds x 24 JSON value kinds (Unmarshal with no option, IgnoreExtraFields and "
+               "BestEffortUnmarshal, into an empty and a populated root); 9 path operations x 27 path shapes x 20 TypedValue shapes; 7 "
+               "request APIs x 20 request / notification shapes; pairs of malformed operations on one tree; every string over "
+               "{a / [ ] = \\ space non-ASCII} up to length %s for StringToPath. This is exhaustive over the shapes of the grid, not over "
+               "bytes: the property's quantifier (all byte strings) is only sampled." % ("5" if tier == "quick" else "6"))
+    # any violation of C20 found by this grid counts; the other replays also report panics under C20
+    return cov, r.get("violations") or []
+
+
 PIPELINES = {
     "C10": lambda tier, seed, work: check_tree("C10", tier, seed, work, "set,setll", ["SetGetFrame"]),
     "C12": lambda tier, seed, work: check_tree("C12", tier, seed, work, "delete", ["DeleteExact"]),
@@ -817,6 +853,7 @@ PIPELINES = {
     "C05": lambda tier, seed, work: check_pairs("C05", tier, seed, work, "c05", ["MergeLaws"]),
     "C04": check_c04,
     "C11": check_c11,
+    "C20": check_c20,
     "C21": check_c21,
     "C22": lambda tier, seed, work: check_gnmidiff("C22", tier, seed, work),
     "C23": lambda tier, seed, work: check_gnmidiff("C23", tier, seed, work),
